@@ -252,6 +252,12 @@ theorem truncNorm_id [Field K] [LinearOrder K] (eps : K) (row : List K)
   simp only [e, h2, div_one]
   simp
 
+/-- `truncate_and_normalize` is also the identity when exact zeros are present: entries are 0 or at least `eps`
+(boundary objects probed with their own eigenstates), sum one. Strictly weaker hypothesis than `truncNorm_id`. -/
+theorem truncNorm_id_zero_or_large [Field K] [LinearOrder K] (eps : K) (row : List K)
+    (h1 : ∀ p ∈ row, p < eps → p = 0) (h2 : lsum row = 1) : truncNorm eps row = row :=
+  truncNorm_id_zero_or_large' eps row h1 h2
+
 /-- C08.4 defect D8 (negation witness, raises): tester POVMs with outcome counts `[2, 2, 3]` (one-dimensional
 toy vectors, `var = [1]`): the circuit gives three distributions, `calc_prob_dists` fails in its reshape
 (`cannot reshape array of size 7 into shape (3, newaxis)`). -/
@@ -351,6 +357,8 @@ example : QGen.C08.qst_row true (2 : Rat) [1, 3, 5] = some ([3, 5], 1/2) := by d
 example : QGen.C08.qpt_row true 2 ([1, 2, 3, 4] : List Rat) = some ([3, 4], 1) := by decide +kernel
 example : QGen.C08.povmt_row true (2 : Rat) 3 [1, 2] 2 = some ([-1, -2, -1, -2], 2) := by decide +kernel
 example : QGen.C08.povmt_row true (2 : Rat) 3 [1, 2] 0 = some ([1, 2, 0, 0], 0) := by decide +kernel
+
+example : truncNorm (1 / 10000000000000 : Rat) [0, 1/4, 3/4, 0] = [0, 1/4, 3/4, 0] := by decide +kernel
 
 /-- equal outcome counts `[2, 2]`: the guard of `calcProbDists_eq_circuit_iff` holds and `calc_prob_dist` returns entry 1 -/
 example : calcProbDist (1 / 10000000000000 : Rat) 2 (mkCoeffs [[([1/2], 0), ([1/2], 0)], [([1/4], 0), ([3/4], 0)]]) [1] 1
